@@ -64,8 +64,10 @@ func cmdDrive(args []string) {
 	bits := fs.Int("bits", 32, "universe width: 32 | 64")
 	mk := fs.Int("minkeys", 1, "minimum number of chunk keys of the random universes")
 	cowBias := fs.Bool("cow", false, "build most bitmaps with copy-on-write recipes")
+	spread := fs.Int("spread", 0, "generators may spread over this many consecutive chunk keys")
 	fs.Parse(args)
 	minKeys = *mk
+	spreadKeys = *spread
 	if *cowBias {
 		recipes = append(recipes, "Rc", "Rk", "Mc", "Mk", "Rok", "Rc", "Rk", "Mk", "Rok", "Rck", "ak", "Ak", "Rc", "Rk")
 	}
@@ -363,12 +365,19 @@ var op64 = map[string]bool{"New": true, "Build": true, "BitmapOf": true, "Clone"
 
 // driveBurst: accumulation histories (the same small operation repeated dozens of times on one chunk).
 func driveBurst(r *rand.Rand, w *bufio.Writer, id int, maxAtoms int, cv *coverOut) {
-	u, gens, groups := accUniverse32(r, maxAtoms+10)
+	cap := maxAtoms + 10
+	if r.Intn(3) == 0 {
+		cap = 260 // "deep" accumulation universe
+	}
+	u, gens, groups := accUniverse32(r, cap)
 	e := newExec(u, w, id, r.Int63())
 	e.begin()
 	ga, _ := u.project(gens[0])
 	e.run(Call{Op: "Build", Dst: 1, As: ga, Rcp: pick(r, []string{"Ro", "Ro", "R", "Rok", "Roz"})})
 	mode := r.Intn(6)
+	if cap == 260 && r.Intn(2) == 0 {
+		mode = 0
+	}
 	order := r.Perm(len(groups))
 	rounds := 1 + r.Intn(2)
 	for round := 0; round < rounds; round++ {
